@@ -281,6 +281,16 @@ package interpreter
 //@   ensures[C21] samety(result, self) && mval(result) == ite(ghostof(self, "wraps") != 0, emod(mval(self) - mval(other), ghostof(self, "hi") + 1), mval(self) - mval(other)) && result != nil && valid(result)
 //@   env MemoryMeteringError ComputationMeteringError
 //@   modifies ghost("metered")
+//@ iface NumberValue.Negate
+//@   option expand=true
+//@   option refine=true
+//@   option expandfor=IntegerValue
+//@   requires valid(self)
+//@   fails[C21] ghostof(self, "haslo") != 0 && ghostof(self, "lo") == 0 => UnexpectedError
+//@   fails[C21] ghostof(self, "haslo") != 0 && ghostof(self, "lo") < 0 && mval(self) == ghostof(self, "lo") => OverflowError
+//@   ensures[C21] samety(result, self) && mval(result) == -mval(self) && result != nil && valid(result)
+//@   env MemoryMeteringError ComputationMeteringError
+//@   modifies ghost("metered")
 //@ iface NumberValue.Mod
 //@   option expand=true
 //@   option refine=true
@@ -421,6 +431,40 @@ package interpreter
 //@   nofail
 //@   env MemoryMeteringError ComputationMeteringError
 //@   ensures result != nil
+// The tag of the sema type of an integer kind (sema.<X>TypeTag, as the package initialiser builds it), by kind.
+//@ spec kindtaglo(k) = ite(k == IntValue, sema.IntTypeTag.lowerMask, ite(k == Int8Value, sema.Int8TypeTag.lowerMask, ite(k == Int16Value, sema.Int16TypeTag.lowerMask, ite(k == Int32Value, sema.Int32TypeTag.lowerMask, ite(k == Int64Value, sema.Int64TypeTag.lowerMask, ite(k == Int128Value, sema.Int128TypeTag.lowerMask, ite(k == Int256Value, sema.Int256TypeTag.lowerMask, ite(k == UIntValue, sema.UIntTypeTag.lowerMask, ite(k == UInt8Value, sema.UInt8TypeTag.lowerMask, ite(k == UInt16Value, sema.UInt16TypeTag.lowerMask, ite(k == UInt32Value, sema.UInt32TypeTag.lowerMask, ite(k == UInt64Value, sema.UInt64TypeTag.lowerMask, ite(k == UInt128Value, sema.UInt128TypeTag.lowerMask, ite(k == UInt256Value, sema.UInt256TypeTag.lowerMask, ite(k == Word8Value, sema.Word8TypeTag.lowerMask, ite(k == Word16Value, sema.Word16TypeTag.lowerMask, ite(k == Word32Value, sema.Word32TypeTag.lowerMask, ite(k == Word64Value, sema.Word64TypeTag.lowerMask, ite(k == Word128Value, sema.Word128TypeTag.lowerMask, ite(k == Word256Value, sema.Word256TypeTag.lowerMask, 0))))))))))))))))))))
+//@ spec kindtaghi(k) = ite(k == IntValue, sema.IntTypeTag.upperMask, ite(k == Int8Value, sema.Int8TypeTag.upperMask, ite(k == Int16Value, sema.Int16TypeTag.upperMask, ite(k == Int32Value, sema.Int32TypeTag.upperMask, ite(k == Int64Value, sema.Int64TypeTag.upperMask, ite(k == Int128Value, sema.Int128TypeTag.upperMask, ite(k == Int256Value, sema.Int256TypeTag.upperMask, ite(k == UIntValue, sema.UIntTypeTag.upperMask, ite(k == UInt8Value, sema.UInt8TypeTag.upperMask, ite(k == UInt16Value, sema.UInt16TypeTag.upperMask, ite(k == UInt32Value, sema.UInt32TypeTag.upperMask, ite(k == UInt64Value, sema.UInt64TypeTag.upperMask, ite(k == UInt128Value, sema.UInt128TypeTag.upperMask, ite(k == UInt256Value, sema.UInt256TypeTag.upperMask, ite(k == Word8Value, sema.Word8TypeTag.upperMask, ite(k == Word16Value, sema.Word16TypeTag.upperMask, ite(k == Word32Value, sema.Word32TypeTag.upperMask, ite(k == Word64Value, sema.Word64TypeTag.upperMask, ite(k == Word128Value, sema.Word128TypeTag.upperMask, ite(k == Word256Value, sema.Word256TypeTag.upperMask, 0))))))))))))))))))))
+// Assumed: converting the static type of an integer kind gives the sema type of that kind, whose Tag() is that
+// type's tag variable.
+//@ iface MemberAccessibleContext.SemaTypeFromStaticType
+//@   assumed
+//@   nofail
+//@   env MemoryMeteringError
+//@   ensures result != nil && ghostof(result, "ikind") == ghostof(staticType, "ikind")
+//@ iface github.com/onflow/cadence/sema.Type.Tag
+//@   assumed
+//@   nofail
+//@   ensures result.lowerMask == kindtaglo(ghostof(self, "ikind")) && result.upperMask == kindtaghi(ghostof(self, "ikind"))
+// The static type of a range of elements of a given static type carries that element type.
+//@ func NewInclusiveRangeStaticType
+//@   props C21
+//@   nofail
+//@   env MemoryMeteringError
+//@   modifies ghost("metered")
+//@   ensures[C21] result.ElementType == elementType && ghostof(result.ElementType, "ikind") == ghostof(elementType, "ikind")
+// The default-step constructor: the step it hands on is +1 towards a larger (or equal) end and -1 towards a smaller
+// one; a smaller end is refused for the unsigned kinds (there is no -1).
+//@ spec unsignedkind(v) = ghostof(v, "haslo") != 0 && ghostof(v, "lo") == 0
+//@ func NewInclusiveRangeValue
+//@   props C21
+//@   modifies ghost("metered")
+//@   requires context != nil && start != nil && end != nil && inty(start) && inty(end) && samety(start, end)
+//@   requires ghostof(rangeStaticType.ElementType, "ikind") == kind(start)
+//@   env MemoryMeteringError ComputationMeteringError
+//@   fails[C21] mval(start) > mval(end) && unsignedkind(start) => InclusiveRangeConstructionError
+//@   ensures[C21] result != nil && called("interpreter.createInclusiveRange#1")
+//@   ensures[C21] callarg("interpreter.createInclusiveRange#1", 1) == start && callarg("interpreter.createInclusiveRange#1", 2) == end
+//@   ensures[C21] mval(callarg("interpreter.createInclusiveRange#1", 3)) == ite(mval(start) > mval(end), -1, 1)
 //@ func isSequenceMovingAwayFromEnd
 //@   inline
 //@ func NewInclusiveRangeValueWithStep
